@@ -7,7 +7,7 @@ LEAN = os.path.join(VERIF, 'lean')
 HARNESS = os.path.join(VERIF, 'harness')
 WORK = os.path.join(VERIF, 'work')
 EVIDENCE = os.path.join(VERIF, 'evidence')
-IMPL = os.path.join(HARNESS, 'target', 'debug', 'implrunner')
+IMPL = os.environ.get('VERIF_IMPL') or os.path.join(HARNESS, 'target', 'debug', 'implrunner')   # VERIF_IMPL: tools/coverage.py's instrumented build
 HARNESS_LICHESS = os.path.join(VERIF, 'harness_lichess')
 IMPL_LICHESS = os.path.join(HARNESS_LICHESS, 'target', 'debug', 'inkayaku_verif_harness_lichess')
 DUMP = os.path.join(HARNESS, 'target', 'debug', 'dumpconsts')
@@ -16,6 +16,7 @@ ALLOWED_AXIOMS = {'propext', 'Classical.choice', 'Quot.sound'}
 FORBIDDEN = re.compile(r'\b(sorry|admit|native_decide|bv_decide|implemented_by|unsafe)\b|^\s*axiom\s|maxHeartbeats\s+0')
 
 ENV = dict(os.environ, CARGO_NET_OFFLINE='true')
+ENV.setdefault('VERIF_WATCHDOG_SECS', '90')
 
 
 class Broken(Exception):
@@ -161,28 +162,28 @@ def run_impl(lines, timeout=3600):
         if rc != 0 or len(out) != len(lines):
             raise Broken('harness-lichess', 'lichess harness failed: ' + err[-2000:])
         return out
-    rc, out, err = run_lines(IMPL, [], lines, timeout)
-    if rc == 0 and len(out) == len(lines):
-        return out
-    # process died: answer line by line around the crash
-    res = list(out[:len(out)])
-    i = len(res)
+    res, i, hangs = [], 0, 0
     while i < len(lines):
+        if hangs >= 6:
+            # the implementation blocks again and again: the check fails anyway, do not spend hours on it
+            res += ['HANG'] * (len(lines) - i)
+            break
+        rc, out, err = run_lines(IMPL, [], lines[i:], timeout)
+        if rc == 0 and len(out) == len(lines) - i:
+            res += out
+            break
+        res += out
+        i = len(res)
+        if out and out[-1] == 'HANG':
+            hangs += 1          # the watchdog of implrunner answered for the blocking request; go on with the rest
+            continue
+        if i >= len(lines):
+            break
+        # process died without an answer (abort, stack overflow): retry the offending line alone
         rc1, out1, _ = run_lines(IMPL, [], [lines[i]], 600)
-        if rc1 == 0 and len(out1) == 1:
-            res.append(out1[0])
-            i += 1
-            # try the rest in one go again
-            rc2, out2, _ = run_lines(IMPL, [], lines[i:], timeout)
-            if rc2 == 0 and len(out2) == len(lines) - i:
-                res += out2
-                return res
-            res += out2
-            i = len(res)
-        else:
-            res.append('CRASH')
-            i += 1
-    return res
+        res.append(out1[0] if rc1 == 0 and len(out1) == 1 else ('HANG' if out1 and out1[-1] == 'HANG' else 'CRASH'))
+        i += 1
+    return res[:len(lines)]
 
 
 def run_model(lines, timeout=3600):
